@@ -285,11 +285,28 @@ def f5_field_order(ck):
         return
     a = [tb.operand(x) for x in news[0][1]["args"]]
 
+    def _sep(x):
+        from terms import thaw
+        v = thaw(x[2]) if x[0] == "const" else None
+        while isinstance(v, dict) and "$ref" in v and len(v) == 1:
+            v = v["$ref"]
+        if isinstance(v, dict):
+            v = v.get("$str", v.get("$char"))
+        if isinstance(v, int):
+            v = chr(v)
+        return v
+
     def group_of(t):
+        """Which piece of the input text the value is read from: ('group', k) = regex capture group k,
+        ('split', k) = k-th piece of the text split on single spaces (the writer's separator)."""
         gs = set()
         for x in walk(t):
             if is_call(x, "Captures<'h> as core::ops::index::Index<usize>>::index"):
-                gs.add(const_value(x[2][1]))
+                gs.add(("group", const_value(x[2][1])))
+            elif x[0] == "call" and "ops::index::Index<" in x[1] and x[1].endswith("::index") and len(x[2]) == 2:
+                src = [y for y in walk(x[2][0]) if y[0] == "call" and y[1] == "core::str::<impl str>::split"]
+                if src and src[0][2][0] == ("param", 1) and _sep(src[0][2][1]) == " " and const_value(x[2][1]) is not None:
+                    gs.add(("split", const_value(x[2][1])))
         return gs
     # values may be bound to locals with several defs (match arms): collect defs
     def all_terms(op):
@@ -301,6 +318,7 @@ def f5_field_order(ck):
         return out
     argops = news[0][1]["args"]
     want = [("board", 1, BOARD_PARSE), ("side", 3, None), ("castling", 4, CASTLE_PARSE), ("ep", 6, "TryFrom<&str>>::try_from")]
+    split_pos = {"board": 0, "side": 1, "castling": 2, "ep": 3}
     for i, (nm, grp, via) in enumerate(want):
         ts = all_terms(argops[i])
         gs = set()
@@ -314,8 +332,9 @@ def f5_field_order(ck):
                         for c, tk in guards_of(prog, rd, bb, tb):
                             if c[0] == "call" and c[1].endswith("PartialEq for str>::eq"):
                                 gs |= group_of(c)
-        ck.req(gs == {grp} and kinds.get(grp) == nm, "F5.group", nm, rd.where(), "State component `%s` is read from capture group(s) %s (group %d is `%s` in the pattern)" % (nm, sorted(gs), grp, kinds.get(grp)),
-               "group %d" % grp)
+        ck.req((gs == {("group", grp)} and kinds.get(grp) == nm) or gs == {("split", split_pos[nm])}, "F5.group", nm, rd.where(),
+               "State component `%s` is read from %s of the text (expected capture group %d = `%s` of the pattern, or piece %d of the space-separated text)"
+               % (nm, sorted(gs) or "no identifiable piece", grp, kinds.get(grp), split_pos[nm]), "%s" % sorted(gs))
         if via:
             used = any(is_call(x, via) for t in ts for x in walk(t))
             ck.req(used, "F5.parser", nm, rd.where(), "component `%s` does not come from %s" % (nm, via.split("::")[-1]))
@@ -328,7 +347,8 @@ def f5_field_order(ck):
     clock = a[4]
     ok = clock[0] == "agg" and clock[1].endswith("Clock::Clock")
     if ok:
-        ck.req(group_of(clock[2][0]) == {7} and group_of(clock[2][1]) == {8}, "F5.group", "counters", rd.where(),
+        g0, g1 = group_of(clock[2][0]), group_of(clock[2][1])
+        ck.req((g0 == {("group", 7)} and g1 == {("group", 8)}) or (g0 == {("split", 4)} and g1 == {("split", 5)}), "F5.group", "counters", rd.where(),
                "halfmove/fullmove are read from groups %s/%s, expected 7/8" % (sorted(group_of(clock[2][0])), sorted(group_of(clock[2][1]))))
     else:
         ck.fail("F5.group", "counters", rd.where(), "clock is not built as Clock { halfmove, fullmove } from the parsed groups")
@@ -354,6 +374,38 @@ def f5_field_order(ck):
         for x, y in zip(seq, seq[1:]):
             good = good and firsts[y] in cfg.reachable(wr, [firsts[x]]) and firsts[x] not in cfg.reachable(wr, [firsts[y]], avoid_edges=cfg.back_edges(wr))
     ck.req(good, "F5.writer_order", "writer", wr.where(), "the writer does not emit board, side, castling, en passant, counters in that order (%s)" % firsts)
+    # separators: exactly one space is written between consecutive fields (the reader accepts one whitespace character
+    # between groups / splits on single spaces), and nowhere else
+    from .common import fmt_text
+    lits = []
+    for bb, t in live_calls(wr):
+        n = callee_name(t)
+        if n.startswith("core::fmt::Arguments::") and (n.endswith("::from_str") or n.endswith("::new") or n.endswith("::new_const")):
+            txt = fmt_text(t["args"][0]) if "const" in t["args"][0] else None
+            if txt is None:
+                a0 = wtb.operand(t["args"][0])
+                for x in walk(a0):
+                    if x[0] == "const":
+                        from terms import thaw
+                        txt = fmt_text({"const": {"val": thaw(x[2])}})
+                        if txt is not None:
+                            break
+            lits.append((bb, txt))
+    ck.floor("F5", len(lits), 10, "literal pieces written by the FEN writer")
+    undec = [bb for bb, txt in lits if txt is None]
+    ck.req(not undec, "F5.separators", "decoded", wr.where(), "a format template of the FEN writer could not be decoded (bb%s)" % undec[:2])
+    ws = [(bb, txt) for bb, txt in lits if txt is not None and any(c.isspace() for c in txt)]
+    ck.req(len(ws) == 5 and all(txt == " " for bb, txt in ws), "F5.separators", "five single spaces", wr.where(),
+           "the writer emits whitespace as %s: the reader expects exactly one space between the six fields" % [txt for bb, txt in ws])
+    ck.req(not any(cfg.in_cycle(wr, bb) for bb, txt in ws), "F5.separators", "not in a loop", wr.where(), "a field separator is written inside a loop")
+    if good and len(ws) == 5:
+        order = sorted(ws, key=lambda x: len(cfg.reachable(wr, [x[0]])), reverse=True)
+        marks = [firsts[k] for k in seq]
+        okk = True
+        for i in range(4):
+            sb = order[i][0]
+            okk = okk and sb in cfg.reachable(wr, [marks[i]]) and marks[i + 1] in cfg.reachable(wr, [sb])
+        ck.req(okk, "F5.separators", "between fields", wr.where(), "the single spaces are not written between consecutive fields")
     # halfmove before fullmove
     clk = []
     for blk in wr.blocks:
